@@ -52,7 +52,8 @@ Fixpoint run_enf (ob : order_kind) (st : enfold pstr N) (ops : list (kop * bool)
   | [] => []
   | (p, fault) :: r =>
       let (st', x) := enfold_step pstr N pstr_eqb pstr_ltb ob Insertion st p fault in
-      (show_out x ++ " b=" ++ show_kmap (e_backend pstr N st') ++ " c=" ++ show_kmap (e_cache pstr N st'))
+      (show_out x ++ " r=" ++ show_bool (enfold_reads_backend pstr_eqb st p) ++
+       " b=" ++ show_kmap (e_backend pstr N st') ++ " c=" ++ show_kmap (e_cache pstr N st'))
         :: run_enf ob st' r
   end.
 
